@@ -231,7 +231,9 @@ fn surrogate_err_matches(exp: &J, got: &J) -> Result<(), String> {
 	let (lo, hi) = (region[0].as_u64().unwrap_or(0), region[1].as_u64().unwrap_or(0));
 	let span = &got["span"];
 	let (a, b) = (span[0].as_u64().unwrap_or(u64::MAX), span[1].as_u64().unwrap_or(u64::MAX));
-	if !(lo <= a && a <= b && b <= hi) {
+	// JsonParser!SpanInside: within the region, and starting at a position OF the region (an empty span at the very end of
+	// the escape points at whatever follows it, which is not offending)
+	if !(lo <= a && a <= b && b <= hi && a < hi) {
 		return Err(format!("span [{a},{b}) not inside the offending escape(s) [{lo},{hi})"));
 	}
 	if exp["variant"] == got["variant"] {
